@@ -29,7 +29,8 @@ def run_scenarios(ctx, cfg, keep, props):
         nontrivial.add((sc["cmd"], tuple(sc["kinds"]), sc["coe"], sc["sel"], sc["cfg"]))
         rank = {n: i + 1 for i, n in enumerate(sorted(o["names"]))}
         traces.append(appscen.trace_of(appscen.mode_of_cmd(sc["cmd"]), appscen.scheme_of_sel(sc["sel"]), sc["coe"],
-                                       o["events"], o["code"], rank))
+                                       o["events"], o["code"], rank,
+                                       disk=(o["changed"], len(o["created"]) + len(o["left"]) + len(o["deleted"]))))
     ctx.ev.cov["evaluations"] += len(scen)
     ctx.ev.cov["distinct_nontrivial"] += len(nontrivial)
     for rec, o in list(zip(scen, obs))[:: max(1, len(scen) // 4)][:4]:
@@ -71,7 +72,39 @@ def classify_reject(rec, o, t, v):
             return "C15", "trace-reject:exit:temp-left:%s:%s:coe=%s" % (sc["cmd"], kinds, "T" if sc["coe"] else "F")
         why = "category-or-code"
         return ("C15" if kinds != "-" else "C18"), "trace-reject:exit:%s:%s:%s:coe=%s" % (why, sc["cmd"], kinds, "T" if sc["coe"] else "F")
+    if ev == "disk":
+        why = "temp-left:" if o["left"] else ("created:" if o["created"] else "")
+        return ("C15" if kinds != "-" else "C10"), "trace-reject:disk:%s%s:%s:coe=%s" % (why, sc["cmd"], kinds, "T" if sc["coe"] else "F")
     if ev == "file_end":
         return ("C15" if kinds != "-" else "C10"), "trace-reject:file_end:%s:%s:coe=%s" % (sc["cmd"], kinds, "T" if sc["coe"] else "F")
     prop = "C15" if kinds != "-" else ("C10" if sc["cmd"] in ("fix",) else "C18")
     return prop, "trace-reject:%s:%s:%s:coe=%s" % (ev, sc["cmd"], kinds, "T" if sc["coe"] else "F")
+
+
+def replay(payload):
+    """Re-run the case stored in a replay file; exit status 1 if it still violates."""
+    import json
+    case = payload.get("case", {})
+    pid = payload.get("property", "?")
+    sc = case.get("scenario")
+    if sc is None:
+        print("replay: this case has no abstract scenario (corpus / crash case); stored details:")
+        print(json.dumps(case, indent=1)[:2000])
+        return 1
+    _r, scen = appscen.generate("MC_AppScen_thorough.cfg" if len(sc["kinds"]) <= 3 and sc["cfg"] != "ok" or sc["sel"] not in ("none", "arg_minimal", "cfg_minimal")
+                                else "MC_AppScen_c15_thorough.cfg")
+    rec = next((s for s in scen if s["sc"] == sc), None)
+    if rec is None:
+        print("replay: scenario not in the model's scenario set:", sc)
+        return 2
+    o = appscen.run_one(rec)
+    bad = [b for b in appscen.compare(rec, o) if b[0] == pid]
+    print("scenario:", sc)
+    print("argv:", o["argv"])
+    print("specification outcome:", {k: rec[k] for k in ("category", "code", "announced", "changed", "visited", "failed")})
+    print("observed: code=%s changed=%s left=%s" % (o["code"], o["changed"], o["left"]))
+    print("stdout:", o["out"][-500:])
+    print("stderr:", o["err"][-500:])
+    for p, sig, _d in bad:
+        print("VIOLATION property=%s signature=%s" % (p, sig))
+    return 1 if bad else 0
